@@ -28,24 +28,26 @@ from ..explore import histpool as HP
 
 PID = "C14"
 LEVEL = "model_checking"
-TECHNIQUE = ("explicit-state search over the process-state machine (events construct/encode over a 10-document pool incl. shared components), "
+TECHNIQUE = ("explicit-state search over the process-state machine (events construct/encode over three document pools: 15 documents, and two sharing groups of 9 and 5 documents around shared bodies, footnotes and a title), "
              "canonical state = census of process-global state + component field values; all histories to depth k unmerged + BFS with state "
              "de-duplication; every encode compared with fresh-interpreter baselines")
 LEVEL_TEXT = ("Every history of construct/encode events up to the stated depth is executed from a restored pristine state and every encode in it is "
               "compared with what fresh interpreters (3 hash seeds) return; the merged BFS extends this to longer histories up to its fixpoint or cap. "
               "Residual global state changes outputs only under particular histories, which is what an exhaustive history search enumerates.")
 LEVEL_NOTE = ("Trusted: the generic census/restore (asserted equal to pristine after every restore; representative histories re-run in fresh interpreters), "
-              "subprocess baselines. Bounds: pool of 15 documents, events {new, enc}, depth as in evidence.")
+              "subprocess baselines (one fresh interpreter per document). Bounds: three pools (15 + 9 + 5 documents; histories stay within one pool), events {new, enc}, depth as in evidence.")
 
 EVENTS = [(e, n) for n in HP.POOL_NAMES for e in ("new", "enc")]
 EVENT_GROUPS = [[(e, n) for n in names for e in ("new", "enc")] for names in HP.GROUPS]  # histories stay within one sharing group
+# the last group is edited in place between encodes: events ed0..ed2 apply the document's k-th edit (a no-op before construction)
+EVENT_GROUPS[3] = [(e, n) for n in HP.POOL4_NAMES for e in ("new", "enc") + tuple(f"ed{k}" for k in range(HP.N_EDITS))]
 EVENTS2 = EVENT_GROUPS[1]
 
 
 def events_for(hist):
     """The alphabet that extends `hist`: the group of its first event (all groups for the empty history)."""
     if not hist:
-        return [e for g in EVENT_GROUPS for e in g]
+        return [e for g in EVENT_GROUPS[:3] for e in g]  # the edit group is explored unmerged only (baselines exist for <= 2 edits)
     return next(g for g, names in zip(EVENT_GROUPS, HP.GROUPS) if hist[0][1] in names)
 
 
@@ -101,8 +103,22 @@ def run_history(hist):
     sh = HP.mk_shared()
     docs = {}
     obs = []
+    applied = {}  # per document: the edits applied since it was constructed (the baseline key)
     for ev, name in hist:
         before = df_fps(docs, sh)
+        if ev.startswith("ed"):
+            res = "absent"
+            if name in docs:
+                try:
+                    HP.edits_of(name)[int(ev[2:])](docs[name])
+                    applied.setdefault(name, []).append(ev[2:])
+                    res = "ok"
+                except Exception as e:  # noqa: BLE001
+                    res = f"exc:{type(e).__name__}"
+            obs.append({"ev": ev, "doc": name, "res": ["construct", res], "df_changed": []})
+            continue
+        if ev == "new":
+            applied.pop(name, None)
         if ev == "new" or name not in docs:
             try:
                 docs[name] = HP.construct(name, sh)
@@ -118,7 +134,8 @@ def run_history(hist):
             before = df_fps(docs, sh)
         r = HP.encode_result(docs[name])
         after = df_fps(docs, sh)
-        obs.append({"ev": ev, "doc": name, "res": r, "df_changed": sorted(k for k in before if k in after and before[k] != after[k])})
+        obs.append({"ev": ev, "doc": name, "res": r, "df_changed": sorted(k for k in before if k in after and before[k] != after[k]),
+                    "key": name + "".join("+e" + k for k in applied.get(name, []))})
     slots = []
     for name in HP.ALL_NAMES:
         if name not in docs:
@@ -161,7 +178,9 @@ def check_obs(hist, obs, viol, only_last=False):
             viol.append({"klass": None, "sig": "dataframe-modified", "detail": f"event {hist[i]} changed DataFrame(s) {o['df_changed']}; history={hist[:i + 1]}"})
         if o["res"][0] == "construct":
             continue
-        base = _BASE[o["doc"]]
+        base = _BASE.get(o.get("key") or o["doc"])
+        if base is None:
+            continue  # an edit sequence longer than the baselined ones (only reachable beyond the unmerged depth)
         got = o["res"]
         if got != base:
             k = classify(hist, i, got, base)
@@ -202,7 +221,7 @@ def eval_case(case: dict) -> dict:
             if d <= 0:
                 return
             for e in events_for(h):
-                if d == 1 and len(h) >= 2 and e[0] == "new":
+                if d == 1 and len(h) >= 2 and (e[0] == "new" or e[0].startswith("ed")):
                     continue  # a trailing construct makes no observation beyond what depth 2 already checks
                 rec(h + [e], d - 1)
 
@@ -219,6 +238,15 @@ def eval_case(case: dict) -> dict:
             check_obs(h2, obs, viol)
             succ.append([list(e), s2])
         out = {"succ": succ, "transitions": n}
+    elif mode == "hash-seed-sweep":  # replay artefact: the same document in fresh interpreters under the recorded hash seeds
+        res = {sd: fresh_results([case["doc"]], sd)[case["doc"]] for sd in case["seeds"]}
+        n = len(res)
+        ref = res[case["seeds"][0]]
+        bad = [sd for sd in case["seeds"][1:] if res[sd] != ref]
+        if bad:
+            viol.append({"klass": None, "sig": f"hash-seed-dependent-output-{case['doc']}",
+                         "detail": f"fresh interpreters disagree for document '{case['doc']}': PYTHONHASHSEED {case['seeds'][0]} vs {bad}"})
+        out = {"sample": {"doc": case["doc"], "digests": {str(sd): (summ(r) if r[0] == "ok" else r[1]) for sd, r in res.items()}}}
     elif mode == "replay":
         h = [tuple(e) for e in case["hist"]]
         s, obs = run_history(h)
@@ -240,10 +268,18 @@ def eval_case(case: dict) -> dict:
 
 def fresh_results(names, seed):
     env = dict(os.environ, PYTHONHASHSEED=str(seed), VERIF_REPO=repo.REPO)
-    p = subprocess.run([sys.executable, "-m", "mc.explore.histpool", *names], cwd=repo.VERIF, env=env, capture_output=True, text=True, timeout=300)
-    if p.returncode != 0:
-        raise RuntimeError(f"baseline subprocess failed: {p.stderr[-800:]}")
-    return json.loads(p.stdout)
+    last = None
+    for attempt in range(2):  # a heavily loaded machine can starve one of several hundred short-lived interpreters: one retry
+        try:
+            p = subprocess.run([sys.executable, "-m", "mc.explore.histpool", *names], cwd=repo.VERIF, env=env, capture_output=True, text=True, timeout=900)
+        except subprocess.TimeoutExpired as e:
+            last = f"timeout: {e}"
+            continue
+        if p.returncode != 0:
+            last = p.stderr[-800:]
+            continue
+        return json.loads(p.stdout)
+    raise RuntimeError(f"baseline subprocess failed: {last}")
 
 
 def fresh_history(hist, seed=0):
@@ -262,7 +298,7 @@ def plan(run):
     from concurrent.futures import ThreadPoolExecutor
 
     quick = run.tier == "quick"
-    run.rule = ("events {new(d), enc(d)} over three pools (15 documents; a sharing group of 9 around a grid-bordered body, a footnote and a last-section body; a sharing group of 5 around a table footnote that a figure document must refuse and a coloured title); histories stay within one pool; all histories of length <= k unmerged (every encode in every history compared with the "
+    run.rule = ("events {new(d), enc(d)} over three pools (15 documents; a sharing group of 9 around a grid-bordered body, a footnote and a last-section body; a sharing group of 5 around a table footnote that a figure document must refuse and a coloured title); a group of 4 documents that are edited in place between encodes - events ed0..ed2, baseline = a fresh interpreter building the document and applying the same edits without encoding in between); histories stay within one pool; plus a sweep of 14 documents over 8 values of PYTHONHASHSEED in fresh interpreters; all histories of length <= k unmerged (every encode in every history compared with the "
                 "fresh-interpreter baseline); breadth-first search over canonical states (census + component values + DataFrame fingerprints) with de-duplication; "
                 "representative histories re-executed in fresh interpreters. 'encode twice' is the history enc(d).enc(d). "
                 "non-trivial = distinct histories with >= 2 events; evaluations = histories executed")
@@ -274,13 +310,32 @@ def plan(run):
     seeds = [0, 1, (run.seed % 1000) + 2]
     with ThreadPoolExecutor(run.workers) as ex:
         # one genuinely fresh interpreter per (document, hash seed): no document shares a process with another
-        futs = [(s, name, ex.submit(fresh_results, [name], s)) for s in seeds for name in HP.ALL_NAMES]
+        edited = [n + "".join("+e%d" % k for k in seq) for n in HP.POOL4_NAMES for L_ in (1, 2) for seq in itertools.product(range(HP.N_EDITS), repeat=L_)]
+        futs = [(s, name, ex.submit(fresh_results, [name], s)) for s in seeds for name in HP.ALL_NAMES + edited]
         per_seed = {}
         for s, name, f in futs:
             per_seed.setdefault(s, {}).update(f.result())
+    # hash-seed sweep: documents whose features tempt an implementation to iterate over a set of names are encoded in fresh
+    # interpreters under 8 values of PYTHONHASHSEED; all must agree (the string order of a set is not part of a document's value)
+    sweep_seeds = [0, 1, 2, 3, 4, 5, 6, (run.seed % 1000) + 7]
+    sweep_names = HP.HASHSEED_NAMES + ["paged", "fnall", "multi", "red"]
+    with ThreadPoolExecutor(run.workers) as ex:
+        sfuts = [(s, name, ex.submit(fresh_results, [name], s)) for s in sweep_seeds for name in sweep_names]
+        sweep = {}
+        for s, name, f in sfuts:
+            sweep.setdefault(name, {})[s] = f.result()[name]
+    run.evaluations += len(sfuts)
+    run.extra["hash_seed_sweep"] = {"seeds": sweep_seeds, "documents": sweep_names}
+    for name, by_seed in sweep.items():
+        ref = by_seed[sweep_seeds[0]]
+        bad = [s for s in sweep_seeds[1:] if by_seed[s] != ref]
+        if bad:
+            run.add_violation(None, f"fresh interpreters disagree for document '{name}': PYTHONHASHSEED {sweep_seeds[0]} vs {bad} "
+                                    f"({ref[0]}/{len(ref[1]) if ref[0] == 'ok' else ref[1]} vs {by_seed[bad[0]][0]}/{len(by_seed[bad[0]][1]) if by_seed[bad[0]][0] == 'ok' else by_seed[bad[0]][1]})",
+                              {"mode": "hash-seed-sweep", "doc": name, "seeds": [sweep_seeds[0]] + bad}, sig=f"hash-seed-dependent-output-{name}")
     base = per_seed[seeds[0]]
     for s in seeds[1:]:
-        for name in HP.ALL_NAMES:
+        for name in HP.ALL_NAMES + edited:
             if per_seed[s][name] != base[name]:
                 run.add_violation(None, f"fresh interpreters disagree for document '{name}' under PYTHONHASHSEED {seeds[0]} vs {s}",
                                   {"mode": "replay", "hist": [["enc", name]]}, sig="hash-seed-dependent-output")
@@ -291,7 +346,7 @@ def plan(run):
     # 1. unmerged: all histories up to depth k
     k = 3 if quick else 4
     cases = []
-    for evs, kk in ((EVENT_GROUPS[0], k), (EVENT_GROUPS[1], k), (EVENT_GROUPS[2], k + 1)):
+    for evs, kk in ((EVENT_GROUPS[0], k), (EVENT_GROUPS[1], k), (EVENT_GROUPS[2], k + 1), (EVENT_GROUPS[3], k)):
         for e1 in evs:
             for e2 in evs:
                 cases.append({"mode": "unmerged", "prefix": [list(e1), list(e2)], "depth": kk - 2})
